@@ -123,6 +123,7 @@ def main(argv):
     timeout_ms = 10000 if args.tier == "quick" else 60000
     jobs, sjobs = [], []
     replays = []
+    bounded = []
     for modname in reg.MODULES:
         mod = importlib.import_module(modname)
         for u in getattr(mod, "UNITS", []):
@@ -132,6 +133,7 @@ def main(argv):
             if prop in chk["props"] and (not args.units or args.units in "static:" + chk["name"]):
                 sjobs.append((modname, i))
         replays += getattr(mod, "REPLAYS", [])
+        bounded += [b for b in getattr(mod, "BOUNDED", []) if b[0] == prop and not args.units]
     results = []
     if jobs or sjobs:
         with multiprocessing.Pool(min(args.jobs, max(1, len(jobs) + len(sjobs)))) as pool:
@@ -210,6 +212,25 @@ def main(argv):
             json.dump(rp, fh, indent=1)
         out_lines.append("VIOLATION property=%s replay=%s%s" % (prop, path, suffix))
         rc = 1
+    bounded_ev = []
+    for (p_, bname, script) in bounded:
+        rcode, out = run_replay(script)
+        first = out.strip().splitlines()[0] if out.strip() else ""
+        try:
+            info = json.loads([l for l in out.splitlines() if l.startswith("{")][0])
+        except Exception:
+            info = {"raw": first[:200]}
+        info.update({"name": bname, "script": script, "rc": rcode, "label": "bounded stand-in: never counted as proved"})
+        bounded_ev.append(info)
+        if rcode == 1:
+            os.makedirs(rdir, exist_ok=True)
+            path = os.path.join(rdir, "bounded_%s.json" % "".join(c if c.isalnum() else "_" for c in bname)[:80])
+            with open(path, "w") as fh:
+                json.dump({"property": prop, "obligation": "bounded:" + bname, "replay_script": script, "replay_output": out}, fh, indent=1)
+            out_lines.append("VIOLATION property=%s replay=%s" % (prop, path))
+            rc = 1
+        elif rcode != 0:
+            errors.append(("bounded:" + bname, "bounded check crashed (rc=%s)" % rcode, out[-400:]))
     for oid, ob in undecided:
         out_lines.append("UNDECIDED property=%s obligation=%s (%s)" % (prop, oid, (ob.get("witness") or {}).get("reason")))
     for unit, err, tr in errors:
@@ -233,6 +254,7 @@ def main(argv):
                        "error": r.get("error")} for r in results],
             "functions_under_contract": functions,
             "samples": samples,
+            "bounded_stand_ins": bounded_ev,
             "known_findings_reported": [{"obligation": oid, "what": f["what"]} for oid, f in known],
             "refuted": [oid for oid, _, _ in violations],
             "undecided": [oid for oid, _ in undecided],
